@@ -162,6 +162,13 @@ int verif_close(int fd)
     /* the single assertion that is "no foreign close, no double close" */
     V_ASSERT("C05/os.close.open_and_library_owned", IS_OPEN(fd) && IS_LIB(fd));
   }
+  if (gc.plan_on && gc.cfg_release_after_stop) {
+    /* destroy: nothing is released before the stop sequence has run as far as it
+       can (child reaped, an action failed, or every step taken) */
+    V_ASSERT("C15/os.close.only_after_stop_sequence",
+             g.child_reaped || g.faults > 0 || g.plan_pos >= gc.plan_n ||
+                 (gc.plan_invalid_at >= 0 && g.plan_pos == gc.plan_invalid_at));
+  }
   if (!IS_OPEN(fd)) {
     g.err = EBADF;
     return -1;
